@@ -1,6 +1,7 @@
 package main
 
 import (
+	"runtime"
 	"regexp"
 	"bytes"
 	"context"
@@ -507,4 +508,14 @@ func (e *Engine) opaquePrelude(opaque []string) string {
 	p := e.PreludeOpaque(opaque)
 	opaqueCache[key] = p
 	return p
+}
+
+// solverPar: obligations in flight. Each runs two solver processes in stage 1 and four in stage 2, so half the
+// cores keeps the machine from being oversubscribed (timeouts are wall-clock).
+func solverPar() int {
+	n := runtime.NumCPU() / 2
+	if n < 1 {
+		n = 1
+	}
+	return n
 }
